@@ -16,7 +16,7 @@ import (
 )
 
 var rec = ev.New("C20",
-	"programs: limit n in 1..4, 2..7 goroutines, a global order of steps (acq, rel, relAgain, tbegin/tend nested, relOther, tempNoHolder, acqCancelled, acqNoLimiter), optional pause plan for the verif yield site in holder.block; non-trivial = a relOther or a release inside a temporary release happened while all n tokens were taken; distinct = hash of the program",
+	"programs: limit n in 1..4, 2..7 goroutines, a global order of steps (acq, rel, relAgain, tbegin/tend nested, relOther, tempNoHolder, acqCancelled, acqNoLimiter), optional pause plan for the verif yield site in holder.block; TestNestedWith: 2-3 limiters stacked on one context chain driven sequentially against a token count per limiter; non-trivial = a relOther or a release inside a temporary release happened while all n tokens were taken; distinct = hash of the program",
 	"the harness's running-count undercounts true holders by construction (incremented after Acquire returned, decremented before any release call)",
 	"a step that does not finish within 2ms is left in flight (this only shapes the schedule)")
 
@@ -525,10 +525,15 @@ func TestReplay(t *testing.T) {
 		t.Skip("no VERIF_REPLAY")
 	}
 	var wrap struct {
-		Case Case `json:"case"`
+		Case   Case   `json:"case"`
+		Nested *NCase `json:"nested"`
 	}
 	if _, err := ev.LoadReplay(p, &wrap); err != nil {
 		t.Fatalf("harness: cannot load replay: %v", err)
+	}
+	if wrap.Nested != nil {
+		checkNested(t, "TestReplay", *wrap.Nested)
+		return
 	}
 	for i := 0; i < 20; i++ { // schedule-dependent: try several times
 		checkAndRecord(t, "TestReplay", wrap.Case)
